@@ -30,6 +30,10 @@ type c10Op struct {
 var c10Types = []string{"application/vnd.example.sbom", "application/vnd.example.sig", "application/vnd.example.att"}
 
 func runC10(e *core.Env) {
+	if e.Choose("gen", 5, "mode") == 4 {
+		c10Options(e)
+		return
+	}
 	ctx := context.Background()
 	w := newWorld(e)
 	g := gen.New(e.Tape)
@@ -352,4 +356,159 @@ func uniq(s []string) []string {
 		}
 	}
 	return out
+}
+
+
+// c10Options: the list side of the property under its option combinations. The subject is a multi-platform
+// index; referrers exist for the index and for its platform images, in the subject's own repository and in a
+// separate repository on another registry (WithReferrerSource). The two registries differ independently in
+// whether they implement the referrers API. A tape-drawn sequence of listings (by tag, by digest, by
+// tag+digest; with and without a platform; from the repository itself or from the external source; with
+// pauses that cross the 5-minute feature cache) must each return exactly the stored manifests that name the
+// subject the request designates, wherever it asked.
+func c10Options(e *core.Env) {
+	ctx := context.Background()
+	w := newWorld(e)
+	g := gen.New(e.Tape)
+	g.MaxBlob = 60
+	g.NoExt = true
+	home := w.AddReg("reg.test")
+	ext := w.AddReg("ext.test")
+	home.K.Referrers = e.Choose("gen", 2, "homeapi") == 0
+	ext.K.Referrers = e.Choose("gen", 2, "extapi") == 0
+	home.K.ReferrersPage = []int{0, 1}[e.Choose("gen", 2, "homepage")]
+	ext.K.ReferrersPage = []int{0, 1}[e.Choose("gen", 2, "extpage")]
+	w.Cache = e.Choose("gen", 2, "cache") == 1
+	useLayoutHome := e.Choose("gen", 4, "homelayout") == 3
+	rc := w.Client()
+	homeBase := "reg.test/proj/app"
+	if useLayoutHome {
+		homeBase = "ocidir://" + e.TempDir()
+	}
+	extBase := "ext.test/refs/app"
+	kids := []*gen.Node{g.Image(false), g.Image(false)}
+	ix := g.Index(false, kids, nil)
+	if err := pushNode(ctx, rc, homeBase, ix, "v1", false); err != nil {
+		e.Violation("vacuity", "subject-push-failed", "pushing the subject failed: %v", err)
+		return
+	}
+	// referrers: in the home repository and in the external one, for the index and for each platform image
+	type stored struct {
+		where   string // home, ext
+		subject string
+		n       *gen.Node
+	}
+	var all []stored
+	subjects := []*gen.Node{ix, kids[0], kids[1]}
+	for _, where := range []string{"home", "ext"} {
+		for _, s := range subjects {
+			for k, n := 0, e.Choose("gen", 3, "nrefs"); k < n; k++ {
+				a := g.Artifact(s, c10Types[e.Choose("gen", 3, "type")])
+				base := homeBase
+				if where == "ext" {
+					base = extBase
+				}
+				if err := pushNode(ctx, rc, base, a, "", false); err != nil {
+					e.Violation("op", "op-failed:put", "pushing a referrer to %s failed on a fault-free endpoint: %v", base, err)
+					return
+				}
+				all = append(all, stored{where, s.Digest, a})
+			}
+		}
+	}
+	truth := func(where, subject string) []string {
+		var out []string
+		for _, x := range all {
+			if x.where == where && x.subject == subject {
+				out = append(out, x.n.Digest)
+			}
+		}
+		sort.Strings(out)
+		return out
+	}
+	type listing struct {
+		Ref      string `json:"ref"`      // tag, digest, tag+digest
+		Platform string `json:"platform"` // "", linux/amd64, linux/arm64/v8
+		Source   string `json:"source"`   // home, ext (WithReferrerSource), ext-direct (the external repository asked by itself)
+		Wait     int    `json:"wait_min"`
+	}
+	var seq []listing
+	for i, n := 0, 3+e.Choose("gen", 6, "nlist"); i < n; i++ {
+		seq = append(seq, listing{
+			Ref:      []string{"tag", "digest", "tag+digest"}[e.Choose("gen", 3, "refkind")],
+			Platform: []string{"", "", "linux/amd64", "linux/arm64/v8"}[e.Choose("gen", 4, "platform")],
+			Source:   []string{"home", "ext", "ext", "ext-direct"}[e.Choose("gen", 4, "source")],
+			Wait:     []int{0, 0, 0, 6}[e.Choose("gen", 4, "wait")],
+		})
+	}
+	sample := map[string]any{"mode": "list options", "home": fmt.Sprintf("layout=%v referrersAPI=%v", useLayoutHome, home.K.Referrers), "external": fmt.Sprintf("referrersAPI=%v", ext.K.Referrers), "cache": w.Cache, "listings": seq}
+	e.SetCase(fmt.Sprintf("opts|%v|%s", sample, ix.Digest), true, sample)
+	e.Probe("mode:list-options")
+	for i, l := range seq {
+		if l.Wait > 0 {
+			simrt.Sleep(time.Duration(l.Wait) * time.Minute)
+		}
+		base := homeBase
+		if l.Source == "ext-direct" {
+			// the external repository holds no copy of the subject: it can only be asked by digest, without a platform
+			base = extBase
+			l.Ref, l.Platform = "digest", ""
+		}
+		var r string
+		switch l.Ref {
+		case "tag":
+			r = base + ":v1"
+		case "digest":
+			r = base + "@" + ix.Digest
+		default:
+			r = base + ":v1@" + ix.Digest
+		}
+		var opts []scheme.ReferrerOpts
+		wantSubject := ix.Digest
+		switch l.Platform {
+		case "linux/amd64":
+			wantSubject = kids[0].Digest
+			opts = append(opts, scheme.WithReferrerPlatform(l.Platform))
+		case "linux/arm64/v8":
+			wantSubject = kids[1].Digest
+			opts = append(opts, scheme.WithReferrerPlatform(l.Platform))
+		}
+		where := "home"
+		if l.Source == "ext" {
+			opts = append(opts, scheme.WithReferrerSource(mustRef(extBase)))
+			where = "ext"
+			e.Probe("list-from-external-source")
+		} else if l.Source == "ext-direct" {
+			where = "ext"
+		}
+		if l.Platform != "" && l.Ref != "tag" {
+			e.Probe("platform-of-digest-pinned-subject")
+		}
+		rl, err := rc.ReferrerList(ctx, mustRef(r), opts...)
+		desc := fmt.Sprintf("listing %d (%s, platform %q, source %s)", i, l.Ref, l.Platform, l.Source)
+		simrt.Event("%s -> %d referrers, err %v", desc, len(rl.Descriptors), err)
+		if err != nil {
+			e.Violation("list", "list-failed", "%s failed on a fault-free endpoint: %v", desc, err)
+			return
+		}
+		var got []string
+		for _, d := range rl.Descriptors {
+			got = append(got, d.Digest.String())
+		}
+		sort.Strings(got)
+		want := truth(where, wantSubject)
+		if strings.Join(got, ",") != strings.Join(want, ",") {
+			kind := "referrers-differ"
+			switch {
+			case len(got) != len(uniq(got)):
+				kind = "referrer-duplicated"
+			case len(got) < len(want):
+				kind = "referrer-lost"
+			case len(got) > len(want):
+				kind = "referrer-left-over"
+			}
+			e.Violation("list", kind+"(options)", "%s = %v, manifests stored there that name %s = %v", desc, shortAll(got), short(wantSubject), shortAll(want))
+			return
+		}
+	}
 }
